@@ -786,6 +786,15 @@ vpn-group-policy VPN-group-DRC-0
 =NETSPOC=[[input]]
 =OUTPUT=NONE
 
+=TITLE=Leave local user with password unchanged
+=DEVICE=
+username admin password $sha512$5000$abc pbkdf2 privilege 15
+username admin attributes
+ service-type admin
+[[input]]
+=NETSPOC=[[input]]
+=OUTPUT=NONE
+
 ############################################################
 =TITLE=Parse group-policy DfltGrpPolicy
 =TEMPL=input
